@@ -17,17 +17,24 @@ Log == ndJsonDeserialize("trace.ndjson")
 VARIABLES l, w, h, nviol, ndrift, cnt
 tvars == <<l, w, h, nviol, ndrift, cnt, cfg>>
 
-Counters == {"steps", "ok", "err", "unk", "pred", "tok_ok", "deliver_ok", "deliver_err", "refund_ok", "frozen_rej", "paused_rej", "payable_rej",
+Counters == {"sched_ok", "sched_rej", "priced", "gas_max", "faults", "faults_fired", "faults_soft", "out_msgs", "parsed", "shapebad", "replicas", "probe",
+             "steps", "ok", "err", "unk", "pred", "tok_ok", "deliver_ok", "deliver_err", "refund_ok", "frozen_rej", "paused_rej", "payable_rej",
              "role_rej", "role_ok", "supply_ok", "overdraft_rej", "create_ok", "handover_ok", "handover_deliver", "kv_ok", "kv_prot_rej",
-             "meta_fn_ok", "nft_credit_existing", "wronghash_rej", "alias_rej", "gas_rej", "flag_ok", "acct_ok", "acct_rej", "nonpay_exempt"}
+             "meta_fn_ok", "alias_rej", "gas_rej", "flag_ok", "acct_ok", "acct_rej", "nonpay_exempt"}
 Cnt0 == [k \in Counters |-> 0]
 
-RefCall(ev) == ev
+\* counterfactual worlds, used only to classify why a step was rejected (vacuity counters)
+Unfrozen(wp) == [wp EXCEPT !.acct = [a \in DOMAIN wp.acct |-> [wp.acct[a] EXCEPT !.esdt = [k \in DOMAIN wp.acct[a].esdt |-> [wp.acct[a].esdt[k] EXCEPT !.props = ""]]]]]
+Unpaused(wp) == [wp EXCEPT !.paused = [sx \in DOMAIN wp.paused |-> <<>>]]
+AllPayable(wp) == [wp EXCEPT !.oracle = [a \in DOMAIN wp.oracle |-> "yes"]]
+WithAllRoles(wp, a, t) == [wp EXCEPT !.acct[a].roles = Put(@, t, <<RoleMint, RoleBurn, RoleCreate, RoleAddQ, RoleNBurn, RoleAddURI, RoleUpd>>)]
 
 Ref(wp, ev) ==
   IF ev.a = "exec" THEN Exec(wp, ev)
   ELSE IF ev.a = "deliver" THEN (IF HasMsg(wp, ev.mid) THEN Deliver(wp, ev.mid, ev.dup) ELSE Unk(wp))
   ELSE Unk(wp)
+
+RefOk(wp, ev) == LET r2 == Ref(wp, ev) IN ~r2.unk /\ r2.ok
 
 \* all step predicates by name
 StepPred(name, wp, ev, w2, hp, r) ==
@@ -61,8 +68,21 @@ StepPred(name, wp, ev, w2, hp, r) ==
     [] name = "P09_Admissible" -> P09_Admissible(wp, ev, w2, hp, r)
     [] name = "P09_Rejected" -> P09_Rejected(wp, ev, w2, hp, r)
     [] name = "P16_Price" -> P16_Price(wp, ev, w2, hp, r)
+    [] name = "P16_ProbePrice" -> P16_ProbePrice(wp, ev, w2, hp, r)
+    [] name = "P16_Charged" -> P16_Charged(wp, ev, w2, hp, r)
+    [] name = "P10_ParserEqualsLedger" -> P10_ParserEqualsLedger(wp, ev, w2, hp, r)
+    [] name = "P10_RoundTrip" -> P10_RoundTrip(wp, ev, w2, hp, r)
+    [] name = "P10_Accepted" -> P10_Accepted(wp, ev, w2, hp, r)
+    [] name = "P11_Shape" -> P11_Shape(wp, ev, w2, hp, r)
+    [] name = "P11_ShapeVerdict" -> P11_ShapeVerdict(wp, ev, w2, hp, r)
+    [] name = "P11_Alloc" -> P11_Alloc(wp, ev, w2, hp, r)
+    [] name = "P13_Replicas" -> P13_Replicas(wp, ev, w2, hp, r)
+    [] name = "P13_InputIntact" -> P13_InputIntact(wp, ev, w2, hp, r)
+    [] name = "P17_FaultIsError" -> P17_FaultIsError(wp, ev, w2, hp, r)
+    [] name = "P17_NoPanic" -> P17_NoPanic(wp, ev, w2, hp, r)
+    [] name = "P01_DeliveryNominal" -> P01_DeliveryNominal(wp, ev, w2, hp, r)
     [] OTHER -> TRUE
-StepNames == {"P01_Exact", "P01_DeliveryAccepted", "P01_RefundRestores", "P01_FailKeeps", "P02_Delta", "P02_Others", "P02_NoOverdraft", "P03_Authority", "P03_Grant", "P03_Denied", "P04_Immobile", "P04_NoCreditWhilePaused", "P04_FlagOnly", "P04_Restores", "P05_Protected", "P05_KVExact", "P05_Frame", "P06_NoGasCreated", "P06_Underfunded", "P07_ReturnedNonce", "P07_Handover", "P07_CtrOnlyByCreate", "P08_Conf", "P08_Create", "P08_OnlyUriAttr", "P08_UriAttrExact", "P08_WrongHash", "P09_Admissible", "P09_Rejected", "P16_Price"}
+StepNames == {"P01_DeliveryNominal", "P16_ProbePrice", "P16_Charged", "P10_ParserEqualsLedger", "P10_RoundTrip", "P10_Accepted", "P11_Shape", "P11_ShapeVerdict", "P11_Alloc", "P13_Replicas", "P13_InputIntact", "P17_FaultIsError", "P17_NoPanic", "P01_Exact", "P01_DeliveryAccepted", "P01_RefundRestores", "P01_FailKeeps", "P02_Delta", "P02_Others", "P02_NoOverdraft", "P03_Authority", "P03_Grant", "P03_Denied", "P04_Immobile", "P04_NoCreditWhilePaused", "P04_FlagOnly", "P04_Restores", "P05_Protected", "P05_KVExact", "P05_Frame", "P06_NoGasCreated", "P06_Underfunded", "P07_ReturnedNonce", "P07_Handover", "P07_CtrOnlyByCreate", "P08_Conf", "P08_Create", "P08_OnlyUriAttr", "P08_UriAttrExact", "P08_WrongHash", "P09_Admissible", "P09_Rejected", "P16_Price"}
 
 \* state predicates (on the recorded post-state and the history after the step)
 StatePred(name, w2, h2) ==
@@ -73,24 +93,33 @@ StateNames == {"Conservation", "NoNegative", "WellFormed", "SysClean", "CounterW
 
 \* vacuity counters: which situations the run exercised
 Triggers(wp, ev, w2, r) ==
-  IF ~Call(ev) THEN {} ELSE
+  IF ev.a = "sched" THEN (IF ev.schok THEN {"sched_ok"} ELSE {"sched_rej"})
+  ELSE IF ev.a = "fault" THEN {"faults"} \cup (IF ev.x.fired THEN (IF ev.res = "err" THEN {"faults_fired"} ELSE {"faults_soft"}) ELSE {})
+  ELSE IF ~Call(ev) THEN {} ELSE
+  (IF ev.a = "exec" /\ IsOk(ev) /\ ev.snd /\ Pred(r) /\ r.ok THEN {"priced"} ELSE {})
+  \cup (IF ev.gascls # "" THEN {"gas_max"} ELSE {}) \cup (IF ev.out # <<>> THEN {"out_msgs"} ELSE {}) \cup (IF ev.par.ok THEN {"parsed"} ELSE {})
+  \cup (IF ShapeBad(ev) THEN {"shapebad"} ELSE {}) \cup (IF "d1" \in DOMAIN ev.x THEN {"replicas"} ELSE {}) \cup (IF "used" \in DOMAIN ev.x THEN {"probe"} ELSE {}) \cup
   {"steps"} \cup (IF IsOk(ev) THEN {"ok"} ELSE {"err"}) \cup (IF r.unk THEN {"unk"} ELSE {"pred"})
   \cup (IF ev.fn \in TokenFns /\ IsOk(ev) /\ ev.a = "exec" THEN {"tok_ok"} ELSE {})
   \cup (IF ev.a = "deliver" /\ ev.fn \in TokenFns /\ ~ev.rae THEN (IF IsOk(ev) THEN {"deliver_ok"} ELSE {"deliver_err"}) ELSE {})
   \cup (IF ev.a = "deliver" /\ ev.rae /\ IsOk(ev) THEN {"refund_ok"} ELSE {})
-  \cup (IF ~IsOk(ev) /\ ev.err = "account is frozen for this esdt token" THEN {"frozen_rej"} ELSE {})
-  \cup (IF ~IsOk(ev) /\ ev.err = "esdt token is paused" THEN {"paused_rej"} ELSE {})
-  \cup (IF ~IsOk(ev) /\ ev.err = "sending value to non payable contract" THEN {"payable_rej"} ELSE {})
-  \cup (IF ev.fn \in RoleGated THEN (IF IsOk(ev) THEN {"role_ok"} ELSE IF ev.err = "action is not allowed" THEN {"role_rej"} ELSE {}) ELSE {})
+  \cup (IF ~IsOk(ev) /\ Pred(r) /\ ~r.ok THEN
+          (IF RefOk(Unfrozen(wp), ev) THEN {"frozen_rej"} ELSE {}) \cup (IF RefOk(Unpaused(wp), ev) THEN {"paused_rej"} ELSE {})
+          \cup (IF RefOk(AllPayable(wp), ev) THEN {"payable_rej"} ELSE {})
+          \cup (IF ev.a = "exec" /\ RefOk(wp, [ev EXCEPT !.gas = 900000000]) THEN {"gas_rej"} ELSE {})
+          \cup (IF ev.fn \in RoleGated /\ NArgs(ev) >= 1 /\ ev.caller \in Accts(wp) /\ RefOk(WithAllRoles(wp, ev.caller, Arg(ev,1).h), ev) THEN {"role_rej"} ELSE {})
+        ELSE {})
+  \cup (IF ev.fn \in RoleGated /\ IsOk(ev) THEN {"role_ok"} ELSE {})
   \cup (IF ev.fn \in SupplyFns /\ IsOk(ev) THEN {"supply_ok"} ELSE {})
-  \cup (IF ~IsOk(ev) /\ ev.err \in {"insufficient funds", "invalid NFT quantity"} THEN {"overdraft_rej"} ELSE {})
+  \cup (IF ~IsOk(ev) /\ ev.fn \in {"ESDTTransfer", "ESDTLocalBurn", "ESDTBurn"} /\ NArgs(ev) >= 2 /\ ev.snd /\ ev.caller \in Accts(wp)
+           /\ Arg(ev,2).q > ValAt(wp, ev.caller, Arg(ev,1).h) THEN {"overdraft_rej"} ELSE {})
   \cup (IF ev.fn = "ESDTNFTCreate" /\ IsOk(ev) THEN {"create_ok"} ELSE {})
   \cup (IF ev.fn = "ESDTNFTCreateRoleTransfer" /\ IsOk(ev) THEN (IF ev.a = "deliver" THEN {"handover_deliver"} ELSE {"handover_ok"}) ELSE {})
   \cup (IF ev.fn = "SaveKeyValue" THEN (IF IsOk(ev) THEN {"kv_ok"} ELSE IF \E i \in 1..NArgs(ev) : i % 2 = 1 /\ Protected(Arg(ev, i).h) THEN {"kv_prot_rej"} ELSE {}) ELSE {})
   \cup (IF ev.fn \in {"ESDTNFTAddURI", "ESDTNFTUpdateAttributes"} /\ IsOk(ev) THEN {"meta_fn_ok"} ELSE {})
-  \cup (IF ~IsOk(ev) /\ ev.err = "wrong NFT on destination" THEN {"wronghash_rej"} ELSE {})
-  \cup (IF ~IsOk(ev) /\ ev.err = "NFT does not have metadata" THEN {"alias_rej"} ELSE {})
-  \cup (IF ~IsOk(ev) /\ ev.err = "not enough gas" THEN {"gas_rej"} ELSE {})
+  \cup (IF ~IsOk(ev) /\ ev.fn = "ESDTNFTTransfer" /\ ev.caller = ev.rcpt /\ NArgs(ev) >= 4 /\ ev.caller \in Accts(wp) /\ Arg(ev,2).n > 0
+           /\ (Arg(ev,1).h \o NBHex(Arg(ev,2).n)) \in DOMAIN wp.acct[ev.caller].esdt
+           /\ EntryNonce(wp.acct[ev.caller].esdt[Arg(ev,1).h \o NBHex(Arg(ev,2).n)]) # Arg(ev,2).n THEN {"alias_rej"} ELSE {})
   \cup (IF ev.fn \in FlagFns /\ IsOk(ev) THEN {"flag_ok"} ELSE {})
   \cup (IF ev.fn \in AcctFns THEN (IF IsOk(ev) THEN {"acct_ok"} ELSE {"acct_rej"}) ELSE {})
   \cup (IF ev.fn \in TokenFns /\ IsOk(ev) /\ (\E a \in Accts(w2) : Gained(wp, w2, a) /\ a # ev.caller /\ ~PayableOK(wp, a)) THEN {"nonpay_exempt"} ELSE {})
